@@ -224,6 +224,7 @@ class Sim(object):
         self.p_sync = p_sync
         self.p_line = p_line
         self.policy = policy
+        self.observers = []
         self.burst = burst
         self.opcode_funcs = set(opcode_funcs)
         self.trace_root = trace_root
@@ -490,6 +491,11 @@ class Sim(object):
             self.sched_sig.update(("%s>%s@%s;" % (cur.role, nxt.role, kind)).encode())
             self.sched_sig_n += 1
             self.log("switch", nxt.role, kind)
+            if self.observers:
+                # invariants evaluated at every context switch, i.e. at every instant at which another
+                # thread could look at the shared state (event-context rules: plain attribute reads only)
+                for ob in self.observers:
+                    ob()
             self._switch_to(nxt)
 
     def _thread_exit(self, t):
